@@ -25,7 +25,7 @@ NPROC = int(os.environ.get('VERIF_NPROC', os.cpu_count() or 4))
 
 def _env():
     e = dict(os.environ)
-    e['PYTHONPATH'] = ROOT + os.pathsep + '/repo'
+    e['PYTHONPATH'] = ROOT + os.pathsep + os.environ.get('VERIF_REPO', '/repo')
     e['PYTHONDONTWRITEBYTECODE'] = '1'
     e['PYTHONHASHSEED'] = '0'
     return e
